@@ -37,5 +37,20 @@ def generate(write):
     pat = "".join(re.sub(r"(?<!\\)#.*", "", line).strip() for line in pat.splitlines())
     pat = re.sub(r"\s+", "", pat)
     body += f"def scientificFinder : String := {json.dumps(pat)}\n"
+    # MCNP_Object._generate_default_node: how a node made from a value (no token at all) spells that value.
+    # The expression handed to ValueNode for a non-None default, as source text from the AST.
+    import ast
+    import inspect
+    import textwrap
+
+    from montepy.mcnp_object import MCNP_Object
+
+    fn = ast.parse(textwrap.dedent(inspect.getsource(MCNP_Object._generate_default_node))).body[0]
+    spellings = []
+    for node in sorted((n for n in ast.walk(fn) if isinstance(n, ast.Return)), key=lambda n: n.lineno):
+        if isinstance(node, ast.Return) and isinstance(node.value, ast.Call) and getattr(node.value.func, "id", "") == "ValueNode":
+            spellings.append(ast.unparse(node.value.args[0]))
+    body += "/-- MCNP_Object._generate_default_node: first argument of every `return ValueNode(...)`, in source order -/\n"
+    body += f"def defaultNodeSpellings : List String := {json.dumps(spellings)}\n"
     body += "\nend MontePyVerif.Gen\n"
     write("ValueFormat.lean", body)
